@@ -248,6 +248,12 @@ def run(ck, fx, cg, tier):
                 c = n.get("cond") or n.get("scrut")
                 if any(x.get("k") == "Path" and x["res"].get("k") == "Local" and x["res"]["lid"] in tl and x["res"]["name"] != "heap_log" for x, _ in walk(c)):
                     ck.ob("R16.inert", "%s|branch on heap size" % path, False, loc(n), "control flow depends on the --heap-size value")
+    # "one A record per created array/object, in creation order": creation order is evaluation order. For array(n, init)
+    # with a compound initializer the array is created first and the initializer values afterwards, once per element
+    # (C13's rules on the array arm)
+    from . import shared as _sh
+    _sh.presuppose(ck, fx, cg, "C13", lambda o: o["rule"] == "R13.arrayrewrite", "R16.order",
+                   "arrays are created before their compound initializer runs (creation order = documented evaluation order)", floor=2)
 
 
 def _shape(ck, fx, cg, size_fn):
